@@ -1,0 +1,25 @@
+//go:build verif
+
+package lalr
+
+// Read-only observation hooks for the verification harness (build tag `verif`).
+
+// VerifLA is the lookahead set attached to one reduction of one state.
+type VerifLA struct {
+	State int
+	Rule  int
+	LA    []int
+}
+
+// VerifReduceLookaheads returns a copy of (state, rule, lookahead symbol ids)
+// for every reduce transition.
+func (lalr *LALR1) VerifReduceLookaheads() []VerifLA {
+	res := []VerifLA{}
+	for _, tr := range lalr.trans {
+		if tr.sym_or_rule&CheckMask != 0 {
+			la := append([]int{}, lalr.LookAheadSet[tr.Index]...)
+			res = append(res, VerifLA{State: tr.q, Rule: int(tr.sym_or_rule & Mask), LA: la})
+		}
+	}
+	return res
+}
